@@ -516,6 +516,41 @@ theorem toU64_fmtNat (n : Nat) (h : n ≤ U64_MAX) : toU64 (fmtNat n) = .ok n :=
       simpa [decVal, decFrom] using h2
     simp [toU64, h1.1, toU64T2_allDigits body (digitVal c) h1.2 hd, hv, h]
 
+open Jomini.Scalar in
+/-- every `i64` (including `i64::MIN`) reads back through the model of `Scalar::to_i64` -/
+theorem toI64_fmtInt (i : Int) (hlo : -(2 ^ 63) ≤ i) (hhi : i ≤ 2 ^ 63 - 1) : toI64 (fmtInt i) = .ok i := by
+  rw [toI64_ok_iff]
+  unfold fmtInt
+  by_cases hneg : i < 0
+  · simp only [hneg, if_true]
+    have hn : i.natAbs ≤ I64_MIN_ABS := by simp only [I64_MIN_ABS]; omega
+    obtain ⟨h1, h2, _⟩ := fmtNat_spec i.natAbs (by simp only [I64_MIN_ABS] at hn; omega)
+    have hu : toU64T2 (fmtNat i.natAbs) 0 = .ok (i.natAbs, []) := by
+      have := toU64T2_allDigits (fmtNat i.natAbs) 0 h1 (by simp [U64_MAX])
+      simp only [decVal] at h2
+      rw [h2] at this
+      simpa [U64_MAX, show i.natAbs ≤ 2 ^ 64 - 1 by simp only [I64_MIN_ABS] at hn; omega] using this
+    exact ⟨45, fmtNat i.natAbs, i.natAbs, rfl, Or.inr (Or.inl ⟨rfl, hu, hn, by omega⟩)⟩
+  · simp only [hneg, if_false]
+    have hn : i.toNat ≤ I64_MAX := by simp only [I64_MAX]; omega
+    obtain ⟨h1, h2, h3⟩ := fmtNat_spec i.toNat (by simp only [I64_MAX] at hn; omega)
+    cases hf : fmtNat i.toNat with
+    | nil => exact absurd hf h3
+    | cons c body =>
+      rw [hf] at h1 h2
+      simp only [allDigits, List.all_cons, Bool.and_eq_true] at h1
+      have hd : digitVal c ≤ U64_MAX := by
+        have := c.toNat_lt
+        simp only [digitVal, U64_MAX]; omega
+      have hv : decFrom body (digitVal c) = i.toNat := by
+        simpa [decVal, decFrom] using h2
+      have hle : i.toNat ≤ U64_MAX := by simp only [I64_MAX] at hn; simp only [U64_MAX]; omega
+      have hu : toU64T2 body (digitVal c) = .ok (i.toNat, []) := by
+        have := toU64T2_allDigits body (digitVal c) h1.2 hd
+        rw [hv] at this
+        simpa [hle] using this
+      exact ⟨c, body, i.toNat, rfl, Or.inl ⟨h1.1, hu, hn, by omega⟩⟩
+
 /-! ### flat documents -/
 
 theorem next_key : WriteState.next .key = some .keyValueSeparator := by decide
